@@ -703,13 +703,16 @@ def _variants(rng: random.Random, fname: str) -> list[str]:
 
 
 def _gen_remote(rng: random.Random, fname: str | None = None, hostile: float = 0.0,
-                nul_ok: bool = False) -> tuple[str, list[str]]:
-    """`hostile`: probability that the containing directory / the file name is a normalisable component"""
+                nul_ok: bool = False, parent: str | None = None) -> tuple[str, list[str]]:
+    """`hostile`: probability that the containing directory / the file name is a normalisable component;
+    `parent`: the containing directory (the component keep-directory looks at) is this one"""
     comps = []
     for _ in range(rng.choice([0, 1, 1, 2, 2, 3, 4])):
         r = rng.random()
         comps.append(rng.choice(SPECIAL) if r < 0.5 else _normalisable(rng, nul_ok) if r < 0.62 else rng.choice(PLAIN))
-    if comps and rng.random() < hostile:
+    if parent is not None:
+        comps.append(parent)
+    elif comps and rng.random() < hostile:
         comps[-1] = _normalisable(rng, nul_ok)          # the component keep-directory looks at
     if fname is None:
         r = rng.random()
@@ -794,10 +797,15 @@ def _gen_conc_case(rng: random.Random) -> dict:
     else:
         fname = rng.choice([f for f in FILES if len(f) < 50 and f not in ('..', '.', '...')])
     remotes, compss = [], []
+    same_parent = rng.random() < 0.4         # equally named files in equally named directories (the same album)
+    parent = None
     for _ in range(n):
-        rm, c = _gen_remote(rng, fname if rng.random() < 0.85 else rng.choice(FILES[:8]), hostile=0.3)
+        rm, c = _gen_remote(rng, fname if rng.random() < 0.85 else rng.choice(FILES[:8]), hostile=0.3, parent=parent)
         remotes.append(rm)
         compss.append(c)
+        if same_parent and parent is None:
+            usable = [x for x in c if x not in ('', '.', '..')]
+            parent = usable[-2] if len(usable) > 1 else rng.choice(PLAIN[:8])
     letters = rng.choice(['DN', 'DN', 'DN', 'DKN', 'DKN', 'KDN', 'NDN', 'DKKN', 'DNN', 'D', 'DK', 'DNK'])
     order = list(range(n))
     rng.shuffle(order)
